@@ -8,6 +8,8 @@ char in_uplo[2], in_trans[2], in_diag[2]; SuperMatrix in_L, in_U; SCPformat in_L
 @T@ in_uval[UC]; int_t in_usub[UC], in_ucolbeg[CAP+1], in_ucolend[CAP+1];
 /* ghosts: work array handed out by ?Calloc; universally chosen supernode g_s, x position g_j, work position g_w; call log */
 @T@ g_work[CAP]; int_t g_s, g_j, g_w, g_ret;
+/* universally chosen stored entry (column g_c, position g_p, row g_r) and work position g_t (row g_r2) for the NaN-propagation clauses */
+int_t g_c, g_p, g_r, g_t, g_r2; int g_work_poison;
 int g_n_alloc, g_n_free, g_n_tri, g_n_mv, g_tri_hits, g_mv_hits, g_zero_first, g_xerbla_calls; int_t g_last_tri, g_last_mv;
 @T@ nondet_@T@(void);
 #define REP8(X) X(0) X(1) X(2) X(3) X(4) X(5) X(6) X(7)
@@ -31,7 +33,7 @@ int xerbla_(char *s, int *i) { g_xerbla_calls++; return 0; }
 void superlu_free(void *p) { __CPROVER_assert(p == (void *)g_work && g_n_alloc == 1 && g_n_free == 0, "work released once, after its allocation"); g_n_free++; }
 #if @cplx@
 /* complex division (SRC/?complex.c): result havocked, operands must be entries of x / Lval */
-void @p@_div(@T@ *c, @T@ *a, @T@ *b) { c->r = nondet_@T@().r; c->i = nondet_@T@().i; }
+void @p@_div(@T@ *c, @T@ *a, @T@ *b) { int p = POIS(*a); @T@ v = nondet_@T@(); __CPROVER_assume(!p || POIS(v)); *c = v; }   /* NaN numerator -> NaN quotient */
 #endif
 
 /* ---- triangular solve with the nsupc x nsupc diagonal block of ONE supernode: x[fsupc .. fsupc+nsupc) := inv(op(T)) x[...] ---- */
@@ -56,9 +58,9 @@ static void tri_model(char ul, char tr, char dg, long n, long lda, @T@ *A, @T@ *
 #elif BR == 3
   __CPROVER_assert(ul == 'U' && tr == 'T' && dg == 'N', "tri: upper, transpose, non-unit diagonal");
 #elif BR == 4
-  __CPROVER_assert(ul == 'L' && tr == 'C' && dg == 'U', "tri: lower, conjugate transpose, unit diagonal");
+  __CPROVER_assert(ul == 'L' && (tr == 'C' || tr == 'c') && dg == 'U', "tri: lower, conjugate transpose (the caller's own character), unit diagonal");
 #else
-  __CPROVER_assert(ul == 'U' && tr == 'C' && dg == 'N', "tri: upper, conjugate transpose, non-unit diagonal");
+  __CPROVER_assert(ul == 'U' && (tr == 'C' || tr == 'c') && dg == 'N', "tri: upper, conjugate transpose (the caller's own character), non-unit diagonal");
 #endif
 #if ASCENDING
   __CPROVER_assert(s > g_last_tri, "tri: supernodes in ascending order, none twice");
@@ -68,7 +70,8 @@ static void tri_model(char ul, char tr, char dg, long n, long lda, @T@ *A, @T@ *
   g_last_tri = s; g_n_tri++;
   if (s == g_s) g_tri_hits++;
   if (ISZERO(x[0]) && !ISZERO(x[1])) g_zero_first = 1;      /* leading entry of the block zero, a later one not */
-#define HAVOC_X(k) if ((k) < n) x[k] = nondet_@T@();
+/* the kernel overwrites x[0..n); an entry that was NaN stays NaN (x_k := (x_k - sum) / d) */
+#define HAVOC_X(k) if ((k) < n && !POIS(x[k])) x[k] = nondet_@T@();
   REP8(HAVOC_X)
 }
 /* ---- work[0..nrow) += B * x[fsupc .. fsupc+nsupc), B the nrow x nsupc block below the diagonal block ---- */
@@ -87,6 +90,7 @@ static void mv_model(long m, long n, long lda, @T@ *A, @T@ *x, @T@ *y) {
   if (s == g_s) g_mv_hits++;
 #define HAVOC_Y(k) if ((k) < m) y[k] = nondet_@T@();
   REP8(HAVOC_Y)
+  if (s == g_s && 0 <= g_t && g_t < m && POIS(y[g_t])) g_work_poison = 1;     /* the kernel may leave a NaN in work[g_t] */
 }
 #if @cplx@
 #define ONE(a) ((a)->r == 1 && (a)->i == 0)
@@ -115,6 +119,10 @@ void h_sptrsv(void) {
   if (NSUPER >= 1) __CPROVER_assert(0, "canary: at least two supernodes");
   if (MULTI(g_s) && NROW(g_s) > 0) __CPROVER_assert(0, "canary: supernode with several columns and rows below the diagonal block");
   if (g_zero_first) __CPROVER_assert(0, "canary: block solved whose first x entry is zero while a later one is not");
+  if (PHYP) __CPROVER_assert(0, "canary: a stored entry of the branch holds a NaN");
+#if BR == 0
+  if (g_work_poison) __CPROVER_assert(0, "canary: the block update leaves a NaN in work[]");
+#endif
   if (g_n_tri >= 2) __CPROVER_assert(0, "canary: two multi-column supernodes");
   if (NSUPER >= 1 && !MULTI(0) && MULTI(1)) __CPROVER_assert(0, "canary: single-column supernode followed by a multi-column one");
 }
